@@ -122,6 +122,8 @@ func (e *Isolated[C]) RunShard(r *Run, shard, of, from int, only json.RawMessage
 	go func() {
 		var s [1]metrics.Sample
 		s[0].Name = "/memory/classes/heap/objects:bytes"
+		var lastCur *currentInput
+		var progressCPU int64
 		for {
 			time.Sleep(50 * time.Millisecond)
 			idx := curIdx.Load()
@@ -130,7 +132,17 @@ func (e *Isolated[C]) RunShard(r *Run, shard, of, from int, only json.RawMessage
 			}
 			metrics.Read(s[:])
 			heap := s[0].Value.Uint64()
-			used := time.Duration(cpuNow() - caseStart.Load())
+			// progress detection: a case may legitimately loop over thousands of inputs; the CPU clock
+			// restarts whenever the case has moved on to another input (SetCurrent) since the last poll
+			if c := current.Load(); c != lastCur {
+				lastCur = c
+				progressCPU = cpuNow()
+			}
+			since := caseStart.Load()
+			if progressCPU > since {
+				since = progressCPU
+			}
+			used := time.Duration(cpuNow() - since)
 			var f *Failure
 			entry, input := describeCurrent()
 			switch {
